@@ -5,6 +5,7 @@ import (
 	"go/ast"
 	"go/token"
 	"go/types"
+	"math/big"
 	"sort"
 	"strings"
 )
@@ -264,33 +265,113 @@ func ruleEffectShared(c *Ctx) {
 		})
 	}
 	if fd := c.fn("Decimal.String"); fd != nil {
-		// buf starts nil (var buf []byte), is assigned only from the emitters, and the
-		// conversion is the last use
-		env := p.newCanonEnv(fd)
-		body := env.canonStmts(fd.Body.List)
-		okB := strings.HasPrefix(body, "var L0 []byte;") && strings.HasSuffix(body, "return call(unsafe.String;call(unsafe.SliceData;L0),call(builtin.len;L0))")
-		srcOK := true
-		ast.Inspect(fd.Body, func(n ast.Node) bool {
-			as, ok := n.(*ast.AssignStmt)
-			if !ok || len(as.Lhs) != 1 || p.exprStr(as.Lhs[0]) != "buf" {
+		// every unsafe.String(unsafe.SliceData(B), len(B)) is over a function-local slice B that is only ever
+		// defined/assigned from an emitter of this package (result not aliasing shared storage, fixpoint above)
+		// handed nil or B itself, is used for nothing else, and the conversion is the operand of a return
+		nConv := 0
+		okAll := true
+		why := ""
+		params := map[types.Object]bool{}
+		for _, po := range paramObjs(p, fd) {
+			params[po] = true
+		}
+		walkStack(fd.Body, func(nd ast.Node, stack []ast.Node) {
+			call, ok := nd.(*ast.CallExpr)
+			if !ok || p.calleeName(call) != "unsafe.String" || len(call.Args) != 2 {
+				return
+			}
+			nConv++
+			var bObj types.Object
+			if inner, ok := ast.Unparen(call.Args[0]).(*ast.CallExpr); ok && p.calleeName(inner) == "unsafe.SliceData" && len(inner.Args) == 1 {
+				bObj = p.objOf(inner.Args[0])
+			}
+			lenOK := false
+			if l, ok := ast.Unparen(call.Args[1]).(*ast.CallExpr); ok && p.calleeName(l) == "builtin.len" && len(l.Args) == 1 && p.objOf(l.Args[0]) == bObj {
+				lenOK = true
+			}
+			if bObj == nil || !lenOK || params[bObj] {
+				okAll, why = false, "the conversion is not unsafe.String(unsafe.SliceData(b), len(b)) over one local slice"
+				return
+			}
+			if v, isVar := bObj.(*types.Var); !isVar || v.Parent() == p.Pkg.Types.Scope() {
+				okAll, why = false, "the buffer is not function-local"
+				return
+			}
+			inReturn := false
+			for _, anc := range stack {
+				if _, ok := anc.(*ast.ReturnStmt); ok {
+					inReturn = true
+				}
+			}
+			if !inReturn {
+				okAll, why = false, "the conversion is not the operand of a return: the buffer could be used afterwards"
+			}
+			// all definitions and other uses of the buffer
+			ast.Inspect(fd.Body, func(m ast.Node) bool {
+				switch x := m.(type) {
+				case *ast.AssignStmt:
+					for i, l := range x.Lhs {
+						if p.objOf(l) != bObj {
+							continue
+						}
+						if len(x.Lhs) != len(x.Rhs) {
+							okAll, why = false, "the buffer is assigned from a multi-value expression"
+							continue
+						}
+						src, ok := ast.Unparen(x.Rhs[i]).(*ast.CallExpr)
+						if !ok {
+							if id, isId := ast.Unparen(x.Rhs[i]).(*ast.Ident); isId && id.Name == "nil" {
+								continue
+							}
+							okAll, why = false, "the buffer is assigned from `"+p.exprStr(x.Rhs[i])+"`"
+							continue
+						}
+						cn := p.calleeName(src)
+						cfd := p.Funcs[cn]
+						firstOK := len(src.Args) > 0 && (p.exprStr(src.Args[0]) == "nil" || p.objOf(src.Args[0]) == bObj)
+						if cfd == nil || cfd.Name.IsExported() || retTainted[cn] || !firstOK {
+							okAll, why = false, "the buffer is filled by `"+p.exprStr(src)+"`, which is not an emitter of this package handed nil or the buffer itself"
+						}
+					}
+				case *ast.ValueSpec:
+					for i, nm := range x.Names {
+						if p.Info.Defs[nm] == bObj && i < len(x.Values) {
+							if id, isId := ast.Unparen(x.Values[i]).(*ast.Ident); !isId || id.Name != "nil" {
+								okAll, why = false, "the buffer is initialised from `"+p.exprStr(x.Values[i])+"`"
+							}
+						}
+					}
+				}
 				return true
-			}
-			call, ok := as.Rhs[0].(*ast.CallExpr)
-			if !ok {
-				srcOK = false
-				return true
-			}
-			// an emitter: an unexported function of this package that is handed the buffer first and whose
-			// result does not alias package-level storage (fixpoint above)
-			cn := p.calleeName(call)
-			cfd := p.Funcs[cn]
-			if cfd == nil || cfd.Name.IsExported() || retTainted[cn] || len(call.Args) == 0 || p.exprStr(call.Args[0]) != "buf" {
-				srcOK = false
-			}
-			return true
+			})
+			// any other use: only as the first argument of an emitter, in the conversion itself
+			walkStack(fd.Body, func(m ast.Node, st2 []ast.Node) {
+				id, ok := m.(*ast.Ident)
+				if !ok || p.Info.Uses[id] != bObj || len(st2) == 0 {
+					return
+				}
+				parent := st2[len(st2)-1]
+				switch x := parent.(type) {
+				case *ast.CallExpr:
+					cn := p.calleeName(x)
+					if cn == "unsafe.SliceData" || cn == "builtin.len" {
+						return
+					}
+					if cfd := p.Funcs[cn]; cfd != nil && !cfd.Name.IsExported() && len(x.Args) > 0 && x.Args[0] == ast.Expr(id) {
+						return
+					}
+				case *ast.AssignStmt:
+					for _, l := range x.Lhs {
+						if l == ast.Expr(id) {
+							return
+						}
+					}
+				}
+				okAll, why = false, "the buffer is also used at "+p.posStr(id)
+			})
 		})
-		c.check(okB && srcOK, "unsafe.private", fd, "the buffer is local, starts nil, is filled only by the emitters and is not used after the conversion",
-			"Decimal.String: the unsafe string must be built over a function-local buffer that starts nil, is assigned only from appendSpecial/fmtE/fmtF and is not used after the conversion: "+body, "C20", "C06")
+		c.check(okAll && nConv >= 1, "unsafe.private", fd, "every unsafe string is built over a function-local buffer filled only by this package's emitters and not used afterwards",
+			"Decimal.String: "+why+"; the unsafe string must be built over a private buffer", "C20", "C06")
 	}
 }
 
@@ -426,11 +507,37 @@ func ruleEffectInputs(c *Ctx) {
 			c.undecided("commit:"+name, fd, "no store through the receiver found", "C20")
 		}
 	}
-	// UnmarshalJSON: "null" returns before anything else
+	// UnmarshalJSON: "null" returns nil before anything reads or stores through the receiver
 	if fd := c.fn("Decimal.UnmarshalJSON"); fd != nil && len(fd.Body.List) > 0 {
 		env := p.newCanonEnv(fd)
-		got := env.canonStmt(fd.Body.List[0])
-		c.check(got == "if((K(\"null\")==conv(string;P0))){return nil}", "json.null", fd.Body.List[0], "null returns nil before anything is read or stored", "UnmarshalJSON must return nil for `null` before touching the receiver: "+got, "C13", "C20")
+		recv := recvObj(p, fd)
+		found := false
+		var at ast.Node = fd
+		for _, s := range fd.Body.List {
+			// only guard clauses that do not mention the receiver may precede the null test
+			ifs, ok := s.(*ast.IfStmt)
+			if !ok || ifs.Init != nil || ifs.Else != nil || len(ifs.Body.List) != 1 {
+				break
+			}
+			if _, isRet := ifs.Body.List[0].(*ast.ReturnStmt); !isRet {
+				break
+			}
+			touches := false
+			ast.Inspect(ifs, func(n ast.Node) bool {
+				if id, ok := n.(*ast.Ident); ok && p.Info.Uses[id] == recv && recv != nil {
+					touches = true
+				}
+				return !touches
+			})
+			if touches {
+				break
+			}
+			if env.canonStmt(ifs) == "if((K(\"null\")==conv(string;P0))){return nil}" {
+				found, at = true, ifs
+				break
+			}
+		}
+		c.check(found, "json.null", at, "null returns nil before anything is read or stored through the receiver", "UnmarshalJSON must return nil for `null` in a guard clause that precedes every use of the receiver", "C13", "C20")
 	}
 	_ = m
 }
@@ -642,6 +749,11 @@ func ruleEffectIndex(c *Ctx) {
 			//  (3) remainder of division by N                                  (digitPairs[rem])
 			//  (4) msd - 11 under msd > 10                                     (ln table)
 			negInner, _ := negOperand(p, idx)
+			// first the interval analysis: it needs no particular spelling of the index or of its guards
+			if iv := p.intervalAt(fd, idx, append(append([]ast.Node{}, stack...), nd)); iv.lo != nil && iv.hi != nil && iv.lo.Sign() >= 0 && iv.hi.Cmp(big.NewInt(N-1)) <= 0 {
+				c.ok(key, ix, fmt.Sprintf("interval analysis: the index lies in [%v, %v], the table has %d entries", iv.lo, iv.hi, N), props...)
+				return
+			}
 			switch {
 			case isNeg(idx) && negInner != nil:
 				inner, off := negOperand(p, idx)
